@@ -101,6 +101,27 @@ pub fn run(out: &RunOut, p: &str) -> MonOut {
                                     m.viol(p, "R4", &site, format!("machine built on the surviving storage presents {:?}, the last completed commit presents {:?}", seen, sp));
                                 }
                             }
+                            // ... and what the stored integers say, read independently of the library's
+                            // conversions: microseconds since the epoch (of either sign) for the time,
+                            // microseconds for the interval, a count that fits u32
+                            if let Kind::DiskCommitted { map } = &h[l.start + 1].kind {
+                                m.count("R4.first_presentation_against_stored_integers");
+                                let want_last = match map.get("last_update_time") {
+                                    Some(DiskVal::I(v)) => Some(TimeRec { wall: Some(*v as i128 * 1000), mono: None }),
+                                    _ => None,
+                                };
+                                let want_poll = match map.get("server_dictated_poll_interval") {
+                                    Some(DiskVal::I(v)) if *v >= 0 => Some(*v as u128 * 1000),
+                                    _ => None,
+                                };
+                                let want_failures = match map.get("consecutive_failed_update_checks") {
+                                    Some(DiskVal::I(v)) if *v >= 0 && *v <= u32::MAX as i64 => *v as u32,
+                                    _ => 0,
+                                };
+                                if seen.last != want_last || seen.poll != want_poll || seen.failures != want_failures {
+                                    m.viol(p, "R4", &site, format!("machine built on storage {:?} presents {:?}; the stored integers say last-contact {:?}, interval {:?} ns, {} failures", map, seen, want_last, want_poll, want_failures));
+                                }
+                            }
                             if li == 0 {
                                 if let Kind::DiskCommitted { map } = &h[l.start + 1].kind {
                                     if map.is_empty() && (seen.failures != 0 || seen.last.is_some() || seen.poll.is_some()) {
